@@ -253,10 +253,30 @@ class CFG:
                 for hn in handlers:
                     self._edge(n, hn)
             out = self._seq(s.orelse, body_out, ctx)
+            rec_h: List[CNode] = []
+            if s.finalbody:
+                self._recording = getattr(self, "_recording", None) or []
+                self._recording.append(rec_h)
             for h, hn in zip(s.handlers, handlers):
                 out = out + self._seq(h.body, [(hn, ())], ctx)
             if s.finalbody:
-                out = self._seq(s.finalbody, out, ctx)
+                self._recording.remove(rec_h)
+                if not self._recording:
+                    self._recording = None
+                # the finally block also runs when the protected code returns or raises: those exits are routed
+                # through it (one instance of the block; what follows it is the union of the continuations)
+                inside = [te] + rec + rec_h
+                returns = [n for n in inside if n.kind == "return"]
+                for r in returns:
+                    r.succ = [(x, f) for x, f in r.succ if x is not self.exit]
+                    self.exit.pred = [(x, f) for x, f in self.exit.pred if x is not r]
+                raising = [n for n in inside if n.kind not in ("return", "break", "continue")]
+                fin_in = list(out) + [(r, ()) for r in returns] + [(n, ()) for n in raising]
+                out = self._seq(s.finalbody, fin_in, ctx)
+                for n, _f in out:
+                    if returns:
+                        self._edge(n, self.exit)
+                    self._edge(n, self.raise_exit)
             return out
         if isinstance(s, ast.Return):
             r = self._new("return", s, s)
